@@ -734,7 +734,43 @@ class PathEnumerator:
 
 
 def enumerate_paths(fn, unroll=(0, 1, 2), name=None, max_paths=20000):
-    return PathEnumerator(fn, unroll=unroll, name=name, max_paths=max_paths).paths()
+    paths = PathEnumerator(fn, unroll=unroll, name=name, max_paths=max_paths).paths()
+    for p in paths:
+        _resolve_value_emits(p.events)
+    return paths
+
+
+def _resolve_value_emits(events):
+    """`x = Ctor(a, b)` ... `yield x` emits Ctor(a, b): an emission of a plain name whose value on this path is a constructor
+    call (and whose operands are not rebound in between) is recorded as the emission of that call."""
+    from .normalise import is_pure
+    for idx, e in enumerate(events):
+        if e.kind != 'emit' or e.ctor != '<value>' or not e.args or not isinstance(e.args[0], ast.Name):
+            continue
+        name = e.args[0].id
+        val = None
+        j0 = None
+        for j in range(idx - 1, -1, -1):
+            d = events[j]
+            if d.kind == 'assign' and d.target == name and d.text not in ('aug', 'del', 'for-target', 'match-bind'):
+                val, j0 = d.value, j
+                break
+            if d.kind in ('sub', 'call', 'silent') and d.bound == name:
+                break
+        if not isinstance(val, ast.Call) or val.keywords and any(k.arg is None for k in val.keywords):
+            continue
+        f = val.func
+        ctor_like = isinstance(f, ast.Name) or (isinstance(f, ast.Attribute) and f.attr[:1].isupper()) or \
+            (isinstance(f, ast.Subscript) and isinstance(f.value, ast.Name))
+        if not ctor_like or not all(is_pure(a) for a in val.args):
+            continue
+        used = {n.id for n in ast.walk(val) if isinstance(n, ast.Name)}
+        if any(d.kind == 'assign' and d.target in used for d in events[j0 + 1:idx]) or \
+                any(d.kind in ('sub', 'call', 'silent') and d.bound in used for d in events[j0 + 1:idx]):
+            continue
+        e.ctor = src(f)
+        e.args = list(val.args)
+        e.kwargs = {k.arg: k.value for k in val.keywords}
 
 
 # ---------------------------------------------------------------------------
